@@ -565,3 +565,50 @@ package types
 //@   trusted
 //@   pure
 //@   ensures result == valSetHashOf(valSet)
+
+// ---------------------------------------------------------------------------------------------
+// canonical sign-bytes structures (C18): every field the signature must bind is carried over unchanged
+
+//@ func CanonicalPartSetHeader
+//@   props C18
+//@   pure
+//@   ensures result.Hash == psh.Hash && result.Total == psh.Total
+
+//@ func CanonicalBlockID
+//@   props C18
+//@   pure
+//@   ensures result.Hash == blockID.Hash && result.PartsHeader.Hash == blockID.PartsHeader.Hash && result.PartsHeader.Total == blockID.PartsHeader.Total
+
+//@ func CanonicalVote
+//@   props C18 C03
+//@   requires vote != nil
+//@   pure
+//@   ensures [binds-height-round-type] result.Height == vote.Height && result.Round == vote.Round && result.Type == vote.Type
+//@   ensures [binds-block-id] result.BlockID.Hash == vote.BlockID.Hash && result.BlockID.PartsHeader.Hash == vote.BlockID.PartsHeader.Hash && result.BlockID.PartsHeader.Total == vote.BlockID.PartsHeader.Total
+
+//@ func CanonicalProposal
+//@   props C18 C03
+//@   requires proposal != nil
+//@   pure
+//@   ensures [binds-height-round] result.Height == proposal.Height && result.Round == proposal.Round && result.POLRound == proposal.POLRound
+//@   ensures [binds-parts-header] result.BlockPartsHeader.Hash == proposal.BlockPartsHeader.Hash && result.BlockPartsHeader.Total == proposal.BlockPartsHeader.Total
+//@   ensures [binds-pol-block-id] result.POLBlockID.Hash == proposal.POLBlockID.Hash && result.POLBlockID.PartsHeader.Hash == proposal.POLBlockID.PartsHeader.Hash && result.POLBlockID.PartsHeader.Total == proposal.POLBlockID.PartsHeader.Total
+
+// the signed JSON wraps the canonical structure together with the chain id (distinct top-level keys for votes and proposals)
+//@ func (*Vote).WriteSignBytes
+//@   props C18 C03
+//@   requires vote != nil
+//@   atcall WriteJSON assert [signed-object-is-chain-id-plus-canonical-vote] typeIs(arg_o, CanonicalJSONOnceVote) && unbox(arg_o, CanonicalJSONOnceVote).ChainID == chainID \
+//@            && unbox(arg_o, CanonicalJSONOnceVote).Vote.Height == vote.Height && unbox(arg_o, CanonicalJSONOnceVote).Vote.Round == vote.Round && unbox(arg_o, CanonicalJSONOnceVote).Vote.Type == vote.Type \
+//@            && unbox(arg_o, CanonicalJSONOnceVote).Vote.BlockID.Hash == vote.BlockID.Hash && unbox(arg_o, CanonicalJSONOnceVote).Vote.BlockID.PartsHeader.Total == vote.BlockID.PartsHeader.Total \
+//@            && unbox(arg_o, CanonicalJSONOnceVote).Vote.BlockID.PartsHeader.Hash == vote.BlockID.PartsHeader.Hash
+//@   ensures  calls(WriteJSON) == 1
+
+//@ func (*Proposal).WriteSignBytes
+//@   props C18 C03
+//@   requires p != nil
+//@   atcall WriteJSON assert [signed-object-is-chain-id-plus-canonical-proposal] typeIs(arg_o, CanonicalJSONOnceProposal) && unbox(arg_o, CanonicalJSONOnceProposal).ChainID == chainID \
+//@            && unbox(arg_o, CanonicalJSONOnceProposal).Proposal.Height == p.Height && unbox(arg_o, CanonicalJSONOnceProposal).Proposal.Round == p.Round \
+//@            && unbox(arg_o, CanonicalJSONOnceProposal).Proposal.POLRound == p.POLRound && unbox(arg_o, CanonicalJSONOnceProposal).Proposal.BlockPartsHeader.Total == p.BlockPartsHeader.Total \
+//@            && unbox(arg_o, CanonicalJSONOnceProposal).Proposal.BlockPartsHeader.Hash == p.BlockPartsHeader.Hash && unbox(arg_o, CanonicalJSONOnceProposal).Proposal.POLBlockID.Hash == p.POLBlockID.Hash
+//@   ensures  calls(WriteJSON) == 1
